@@ -174,7 +174,7 @@ class Universe:
         if self.module is None:
             m = types.ModuleType(f"verif_universe_{self.uid}")
             sys.modules[m.__name__] = m
-            exec(compile(self.source(), m.__name__, "exec"), m.__dict__)
+            exec(compile(self.source(), m.__name__, "exec", dont_inherit=True), m.__dict__)
             self.module = m
         return self.module
 
